@@ -33,7 +33,10 @@ Record case1 := {
   d_init : store; d_first : string;
   d_tend : option Z; d_max : option nat; d_fuel : nat; d_obs : list var;
   d_interp : option xrun;     (* observed from the NumPy interpreter *)
-  d_gen : option xrun         (* observed from the generated Python class *)
+  d_gen : option xrun;        (* observed from the generated Python class *)
+  d_ord_interp : list (string * list nat); (* per step attempt: the phase and the statement positions in the
+                                              order the interpreter really executed them (a prefix if cut) *)
+  d_ord_gen : list (string * list nat)     (* leaf order of the tree the generator walked, per phase *)
 }.
 
 Section Chk.
@@ -52,14 +55,37 @@ Section Chk.
         end
     end.
 
-  Definition run_matches (keep : var -> bool) (g : bool) (c : case1) (ps : list phase) (x : xrun) : bool :=
+  Definition pick_ids (l : list stmt) (ids : list nat) : list stmt :=
+    flat_map (fun i => match nth_error l i with Some st => [st] | None => [] end) ids.
+
+  (* every statement of a recorded order comes after the statements it depends on *)
+  Fixpoint ord_ok (l : list stmt) (done rest : list nat) : bool :=
+    match rest with
+    | [] => true
+    | i :: r =>
+        match nth_error l i with
+        | Some st => forallb (fun d => existsb (Nat.eqb d) done) (sdeps st) && negb (existsb (Nat.eqb i) done)
+        | None => false
+        end && ord_ok l (done ++ [i]) r
+    end.
+
+  Fixpoint assoc_ord (n : string) (l : list (string * list nat)) : option (list nat) :=
+    match l with
+    | [] => None
+    | (k, v) :: r => if String.eqb k n then Some v else assoc_ord n r
+    end.
+
+  Definition run_matches (keep : var -> bool) (g : bool) (c : case1) (ps : list phase)
+             (order : string -> nat -> list stmt -> list stmt) (x : xrun) : bool :=
     let '(evs, s, nx, e) :=
-      run test_F g keep (d_obs c) (fun _ _ l => l) (d_fuel c) ps (d_init c) (d_first c)
+      run test_F g keep (d_obs c) order (d_fuel c) ps (d_init c) (d_first c)
           (d_tend c) (d_max c) 0 0 in
     list_eqb sev_eqb evs (x_evs x) && end_matches e (x_end x) && String.eqb nx (x_next x)
     && match x_end x with
-       | XUserExn | XCrashExn => true   (* the state right after an exception depends on the admissible
-                                           order the backend happened to use (C11 states what holds) *)
+       | XUserExn | XCrashExn => true   (* a statement that raises inside its loop nest leaves the effects of
+                                           the iterations already done; the model keeps the store from before
+                                           the failing statement, so the state right after an exception is not
+                                           compared (C11's oracle checks it on the implementation) *)
        | _ => list_eqb (opt_eqb val_eqb) (map s (d_obs c)) (x_final x)
        end.
 
@@ -69,7 +95,22 @@ Section Chk.
     match build_phases (d_phases c) with
     | None => false
     | Some ps =>
-        match d_interp c with Some x => run_matches keep_interp del_guarded c ps x | None => true end
-        && match d_gen c with Some x => run_matches keep_gen true c ps x | None => true end
+        (* the model is run in the order each backend really used; the orders must be admissible *)
+        match d_interp c with
+        | Some x => run_matches keep_interp del_guarded c ps
+                      (fun _ a l => match nth_error (d_ord_interp c) a with
+                                    | Some (_, ids) => pick_ids l ids | None => l end) x
+        | None => true end
+        && match d_gen c with
+           | Some x => run_matches keep_gen true c ps
+                         (fun n _ l => match assoc_ord n (d_ord_gen c) with
+                                       | Some ids => pick_ids l ids | None => l end) x
+           | None => true end
+        && forallb (fun p => match assoc_ord (ph_name p) (d_ord_gen c) with
+                             | Some ids => ord_ok (ph_stmts p) [] ids
+                             | None => true end) ps
+        && forallb (fun o => match find_phase ps (fst o) with
+                             | Some p => ord_ok (ph_stmts p) [] (snd o)
+                             | None => false end) (d_ord_interp c)
     end.
 End Chk.
